@@ -189,8 +189,9 @@ def run_case(ctx, rng, idx):
         if interleave and mode == "initial" and len(node_labels) >= 4:
             # a second generator of the SAME sampler, started from another hypergraph and advanced in turns with the first:
             # each generated sequence is conditioned on its own starting point
-            other = hgx.Hypergraph([tuple(node_labels[:2]), tuple(node_labels[1:4])])
-            for n in node_labels:
+            foreign = ["q%d" % i for i in range(len(node_labels))] if not isinstance(node_labels[0], str) else list(range(7000, 7000 + len(node_labels)))
+            other = hgx.Hypergraph([tuple(foreign[:2]), tuple(foreign[1:4])])
+            for n in foreign:
                 other.add_node(n)
             it2 = s.sample(initial_hyg=other)
         for _ in range(n_samples):
